@@ -584,6 +584,11 @@ def _jsonable(x):
 
 _OBS = []
 _BUDGET = 0
+_TIMED_OUT = []
+
+
+def _enough_violations(results):
+    return sum(len(r[2].get("violations", [])) for r in results) >= 12
 
 
 def _probe(item):
@@ -661,9 +666,15 @@ def run_property(pid, tier, obligations, meta, jobs=None, seed=0):
                 queue.append((it[0], it[1], it[2], it[3], pre))
     else:
         ctx = mp.get_context("fork")
+        deadline = t0 + float(os.environ.get("VERIF_MAX_WALL_S", "900" if tier == "quick" else "14400"))
         with ctx.Pool(jobs, maxtasksperchild=256) as pool:
             running = []
             while queue or running:
+                if time.time() > deadline or (_enough_violations(results) and time.time() > t0 + 20):
+                    # wall-clock limit (or plenty of confirmed violations already): stop; unexplored work is reported
+                    _TIMED_OUT.append(len(queue) + len(running))
+                    pool.terminate()
+                    break
                 while queue and len(running) < jobs * 3:
                     it = queue.popleft()
                     running.append((it, pool.apply_async(_work, (it,))))
@@ -737,7 +748,8 @@ def _report(pid, tier, obligations, results, meta, wall, seed):
     for fid, h in known_hits.items():
         lines.append(f"KNOWN-FINDING: property={pid} {fid}: {listed[fid]['what']}")
 
-    inconclusive = agg["unknown_final"] + len(nonrepro) + len(vacuous)
+    unexplored = sum(_TIMED_OUT)
+    inconclusive = agg["unknown_final"] + len(nonrepro) + len(vacuous) + (1 if unexplored else 0)
     if violations:  # confirmed by replay on the real code: reported whatever else went wrong
         code = EXIT_VIOLATION
     elif errors or mismatches:
@@ -759,7 +771,7 @@ def _report(pid, tier, obligations, results, meta, wall, seed):
             "transitions": max(agg["decisions"], 0),
             "traces_validated_against_impl": agg["witness_ok"],
             "samples": samples or [{"note": "no completed path"}],
-            "exhaustive": code in (EXIT_OK,) and not errors,
+            "exhaustive": code in (EXIT_OK,) and not errors and not unexplored,
             "explanation": "states = feasible completed symbolic paths of the real code; transitions = "
             "solver-decided branch decisions; every path ends with a z3 query path_condition AND NOT property "
             "(unsat = holds on the whole input region of that path).",
@@ -791,6 +803,7 @@ def _report(pid, tier, obligations, results, meta, wall, seed):
             "stand_ins": meta.get("stand_ins", []),
             "patched_names": sorted(patched),
             "harness_errors": errors[:5],
+            "work_items_not_explored": unexplored,
             "slowest_cases": slowest,
         },
         "assumptions": meta.get("assumptions", []),
@@ -812,6 +825,9 @@ def _report(pid, tier, obligations, results, meta, wall, seed):
         print(f"WITNESS-DISAGREEMENT property={pid} {json.dumps(m, default=str)[:1500]}")
     for n in nonrepro[:3]:
         print(f"INCONCLUSIVE property={pid} non-reproducing counterexample: {json.dumps(n, default=str)[:1500]}")
+    if unexplored:
+        print(f"INCONCLUSIVE property={pid} stopped early with {unexplored} work items unexplored "
+              f"({'violations already confirmed' if violations else 'wall-clock limit'})")
     if agg["unknown_final"]:
         print(f"INCONCLUSIVE property={pid} solver returned unknown on {agg['unknown_final']} final queries")
     for vname in vacuous:
